@@ -243,7 +243,7 @@ class Run:
             for k, vs in sorted(groups.items()):
                 print("GROUP", k, len(vs), "|", str(vs[0]["detail"])[:300].replace("\n", " / "))
         if self.violations:
-            rdir = os.path.join(VERIF, "replays", self.prop)
+            rdir = os.path.join(os.environ.get("VERIF_EVIDENCE_DIR") or os.path.join(VERIF, "replays"), self.prop)
             os.makedirs(rdir, exist_ok=True)
             # group by symptom+features, report the first (simplest) of each group
             seen = {}
@@ -291,8 +291,9 @@ class Run:
             "wall_s": round(wall, 2),
             "violations": len(self.violations),
         }
-        os.makedirs(os.path.join(VERIF, "evidence"), exist_ok=True)
-        with open(os.path.join(VERIF, "evidence", f"{self.prop}.json"), "w") as f:
+        evdir = os.environ.get("VERIF_EVIDENCE_DIR") or os.path.join(VERIF, "evidence")
+        os.makedirs(evdir, exist_ok=True)
+        with open(os.path.join(evdir, f"{self.prop}.json"), "w") as f:
             json.dump(ev, f, indent=1, default=str)
         print(
             f"{self.prop} tier={self.tier} seed={self.seed} states={cov['states']} transitions={cov['transitions']} "
